@@ -1,0 +1,25 @@
+//go:build verif
+
+// Contracts for the deductive verifier in /verif (gocv); comments only.
+
+package util
+
+// CRC-32C is an uninterpreted deterministic function of the byte sequence; the mask is a bijection.
+
+//@ spec func crcupd(c uint32, b bytes) uint32
+//@ spec func crcmask(c uint32) uint32
+
+//@ func NewCRC
+//@   trusted
+//@   pure
+//@   ensures result == crcupd(0, b)
+
+//@ func (CRC).Update
+//@   trusted
+//@   pure
+//@   ensures result == crcupd(c, b)
+
+//@ func (CRC).Value
+//@   trusted
+//@   pure
+//@   ensures result == crcmask(c)
